@@ -162,6 +162,13 @@ def _world(name):
 
 
 CFG_EXTRA = {
+    # configurations for the batch-driver scenarios (the driver's per-agent context carries no injected encoder, so the
+    # engine's own deterministic 32-dim encoder is used and the worlds' episodes are re-embedded with it; threshold -1
+    # admits every episode so that recency window and ranking decide)
+    "drv_base": {"t2": {"sim_threshold": -1.0}},
+    "drv_exact": {"t2": {"sim_threshold": -1.0, "tiers": ["exact_semantic"], "exact_recent_days": 30}},
+    "drv_gel": {"t2": {"sim_threshold": -1.0}, "graph": {"enabled": True, "coactivation_threshold": 0.0, "update": {"alpha": 0.5},
+                                                         "decay": {"half_life_turns": 2, "floor": 0.01}}},
     # budget-driven yields (quantum / wall budgets out of reach so no time-driven yield can occur): the yield paths of
     # turn.jsonl / scheduler.jsonl are part of the canonical output too
     "sched_yield_t3": {"scheduler": {"enabled": True, "quantum_ms": 10 ** 9, "budgets": {"wall_ms": 10 ** 9, "t3_ops": 1}}},
@@ -195,6 +202,13 @@ def scenario_list(thorough):
                 if w == "W0" and len(s) > 1 and not thorough:
                     continue
                 out.append({"world": w, "cfg": cn, "turns": [list(t) for t in s]})
+    # the same turns driven through the agent batch driver (its sequential path clones the context per agent): the
+    # driver is an entry point of the engine like run_turn
+    for w in ("W1", "W2t"):
+        for cn in ("drv_base", "drv_exact", "drv_gel"):
+            for s in seqs:
+                if len(s) == 2:
+                    out.append({"world": w, "cfg": cn, "turns": [list(t) for t in s], "driver": "batch"})
     return out, cfgs
 
 
@@ -208,10 +222,19 @@ def run_scenario(sc, cfgs, scratch, reset=True):
     try:
         cfg = W.make_cfg(cfgs[sc["cfg"]], snap_dir=ex.snap_dir)
         state = _world(sc["world"])
+        if sc.get("driver") == "batch":
+            from clematis.adapters.embeddings import BGEAdapter
+            _enc = BGEAdapter(dim=32)
+            for _e in state["mem_index"]._eps:
+                _e["vec_full"] = _enc.encode([_e.get("text", "")])[0]
         lines = []
         for i, (agent, text) in enumerate(sc["turns"], start=1):
             ctx = W.make_ctx(cfg, agent, i)
-            res = W.run_turn(ctx, state, text)
+            if sc.get("driver") == "batch":
+                import clematis.engine.orchestrator as _orch
+                res = _orch._run_agents_parallel_batch(ctx, state, [(agent, text)])[0]
+            else:
+                res = W.run_turn(ctx, state, text)
             lines.append(res.line)
         parts = {"lines": json.dumps(lines, ensure_ascii=False)}
         logs = ex.logs()
